@@ -3,8 +3,11 @@
 (* Kinds "stream" and "metabuf" have the same capabilities as "rawdata"  *)
 (* and "geninfo" (same transitions); they are exercised by Gen/Trace.     *)
 EXTENDS RefCount
-View == <<kind, holds, copyh, hascopy, extra, defer, made, cnt, alive, snd, tries>>   \* obs is an observation, not state
+View == <<kind, holds, copyh, hascopy, extra, defer, made, cnt, alive, snd, tries, inner, origin, tlen>>   \* obs is an observation, not state
 (* quick tier only: rejected-reply retries and a cleared send callback are not combined with an   *)
 (* array copy or plain-pointer references (the thorough configuration has no such constraint)    *)
-QuickBound == \A o \in Objs : (tries[o] > 0 \/ ~snd[o]) => (~hascopy /\ extra[o] = 0)
+QuickBound == /\ \A o \in Objs : (tries[o] > 0 \/ ~snd[o]) => (~hascopy /\ extra[o] = 0)
+              /\ (\E o \in Objs : inner[o] # 0) => (~hascopy /\ \A o \in Objs : extra[o] = 0)
+(* thorough tier: nested references are not combined with an array copy or plain-pointer references *)
+NestBound == (\E o \in Objs : inner[o] # 0) => (~hascopy /\ \A o \in Objs : extra[o] = 0)
 =============================================================================
